@@ -507,6 +507,13 @@ class KaniSession:
         cmd = (self.base_cmd() + self.sel(h) + ["-Z", "concrete-playback", "--concrete-playback=print"]
                + h.extra + self.unwindset_args(h))
         rc, out, dt = run_cmd(cmd, self.cwd, h.timeout * 2, mem_gb=max(h.mem_gb, 24))
+        try:
+            dbg = os.path.join(SCRATCH_BASE, "yv")
+            os.makedirs(dbg, exist_ok=True)
+            with open(os.path.join(dbg, "replay-%s.log" % h.name), "w") as f:
+                f.write("rc=%s wall=%.0fs\n" % (rc, dt) + out[-20000:])
+        except Exception:
+            pass
         blocks = re.findall(r"```\n(.*?)```", out, re.S)
         blocks = [b for b in blocks if "#[test]" in b and "Check for `cover`" not in b]
         rdir = os.path.join(VERIF, "replays", prop_id)
